@@ -240,7 +240,8 @@ def _oracle_hits(tri, o, d, margin):
     """(sorted list of (triangle, t)) for hits well inside a triangle and ahead of the origin;
     `ambiguous` if some triangle is hit within `margin` of an edge / the origin / grazing"""
     t, u, v = moller_trumbore(tri, o, d)
-    w = 1.0 - u - v
+    with rnp.errstate(invalid="ignore"):
+        w = 1.0 - u - v
     dl = rnp.linalg.norm(d)
     bm = 0.01  # barycentric margin: a hundredth of the triangle away from its edges
     inside = (u > bm) & (v > bm) & (w > bm) & (t * dl > margin)
@@ -313,7 +314,11 @@ def rays_vs_oracle(tier, seed):
                 for _ in range(3):
                     o2 = t_ + rng.normal(size=3) * float(m.scale) * 2.0
                     extra.append((o2, t_ - o2))
-            batch = rays[:20] + rays[:3] + [r_ for r_ in extra if not _oracle_hits(tri, r_[0], r_[1], 1e-4 * scale)[1]]
+            # the surface-hugging rays (candidate triangles behind the origin) go FIRST: whatever they
+            # leave behind in the per-call arrays must not leak into the rays after them
+            n_plain = n_rays
+            hug = [r_ for r_ in rays if any(r_ is q for q in rays[-max(6, n_rays // 3):])]
+            batch = hug + rays[:20] + rays[:3] + [r_ for r_ in extra if not _oracle_hits(tri, r_[0], r_[1], 1e-4 * scale)[1]]
             O = rnp.array([o for o, _ in batch])
             D = rnp.array([d for _, d in batch])
             for ename, eng in engines:
